@@ -195,6 +195,20 @@ def run(ctx):
             ctx.spec_fail('duplicates|many-chunks', 'duplicates / unique / distinct over a sort of %d rows in chunks of %d do not partition the rows by key multiplicity' % (n, bs),
                           {'nrows': n, 'buffersize': bs, 'table': 'rows [key, i]: every fifth key occurs once, the others are drawn from [1, 2, 3, "a", None]'})
 
+    # ---- an operand already sorted by a leading part of a compound key (a sort view, or presorted rows) is not sorted by the key
+    for ci in range(90 if ctx.thorough() else 30):
+        rows = [[rng.choice([1, 2]), rng.choice(['a', 'b']), i] for i in range(rng.choice([3, 4, 6]))]
+        T = [['x', 'y', 'i']] + rows
+        for op in ('duplicates', 'unique', 'distinct', 'conflicts'):
+            for opnd, label in ((etl.sort(T, 'x'), 'sort(x)'), (etl.sort(T, 'x', buffersize=2), 'sort(x, buffersize=2)'), (etl.sort(T, ('x',)), "sort(('x',))")):
+                a = util.run_show(lambda: getattr(etl, op)(opnd, ('x', 'y')))
+                b = util.run_show(lambda: getattr(etl, op)([tuple(r) for r in opnd], ('x', 'y')))
+                ctx.case(('prefix-sorted-operand', op, label, repr(rows)))
+                ctx.count('prefix-sorted-operand')
+                if a != b:
+                    ctx.spec_fail('%s|sort-view-operand' % op, '%s with a compound key over an operand that is a sort view on the leading key field only differs from the same on the table the view stands for' % op,
+                                  {'op': op, 'table': repr(T), 'operand': label, 'key': "('x', 'y')", 'with the view': a, 'with the materialised view': b})
+
     # ---- conflicts: the names of the fields that are not the key do not matter, not even when one repeats the key's name
     for ci in range(120 if ctx.thorough() else 40):
         rows = [[rng.choice([1, 2]), rng.choice(['p', 'q']), rng.choice([0, 1, None])] for _ in range(rng.choice([2, 3, 5]))]
